@@ -311,6 +311,16 @@ class _IterIface:
         return {"base-wf": WFSET(D(s.base_offset))}
 
 
+@contract(SER + "_composite.ServiceType.iterate_fields_with_offsets", props=P)
+class _ServiceIter:
+    """The fourth override of the interface method: a service type has no fields of its own - always TypeError
+    (so the interface contract above, which has no exceptional clause, is never relied on for a service receiver: the
+    class invariant of DelimitedType excludes a service as inner type)."""
+    params = dict(base_offset=ObjOf(BLS))
+    never_returns = True
+    raises = {"TypeError": lambda s: True}
+
+
 @contract(DELIMITED + ".iterate_fields_with_offsets", props=P)
 class _DelimIter:
     params = dict(base_offset=ObjOf(BLS))
